@@ -69,6 +69,10 @@ def hazards_of(ctx, b):
                 out.append(('index', base_descr(b, ct[2][0]), bi, {'index': rng, 'base': strip_all(ct[2][0])}))
         elif last in ('copy_from_slice',):
             out.append(('len-match', last, bi, {}))
+        elif d.startswith('lyon_geom::') and last in ('flattened', 'for_each_flattened', 'for_each_flattened_with_t', 'for_each_quadratic_bezier', 'for_each_monotonic') \
+                and len(ct[2]) >= 2 and (b.blocks[bi]['t'].get('arg_tys') or ['', ''])[1] == 'f32':
+            # lyon_geom debug-asserts tolerance >= EPSILON * EPSILON (and > 0) in its flattening / approximation routines
+            out.append(('extern', 'lyon tolerance', bi, {'tol': ct[2][1]}))
     return out
 
 
@@ -213,6 +217,31 @@ def auto_discharge(ctx, b, h):
         if edges and cut_by_edges(cfg, bi, edges):
             return 'unwrap dominated by an is_none()/is_some() test of the same place'
         return None
+    if kind == 'extern':
+        # the tolerance handed to lyon is a constant >= EPSILON^2, or clamped from below by one (max(x, c); max(NaN, c) = c)
+        EPS2 = 1e-8          # lyon_geom 1.0.19: <f32 as Scalar>::EPSILON = 1e-4
+        def lower_bound(t, depth=0):
+            t = strip_all(t)
+            v = const_val(t)
+            if isinstance(v, (int, float)):
+                return float(v)
+            p = poly(t)
+            cv = p.const_value()
+            if cv is not None:
+                return float(cv)
+            if t[0] == 'call' and isinstance(t[1], str) and t[1].endswith('::max') and len(t[2]) == 2:
+                bs = [lower_bound(x, depth + 1) for x in t[2]]
+                bs = [x for x in bs if x is not None]
+                return max(bs) if bs else None
+            if t[0] in ('phi', 'rec') and depth < 4:
+                ds = an.phi_terms(t) if t[0] == 'phi' else [an.def_term(an.defs[t[1]])]
+                bs = [lower_bound(x, depth + 1) for x in ds]
+                return min(bs) if bs and all(x is not None for x in bs) else None
+            return None
+        lb = lower_bound(ex['tol'])
+        if lb is not None and lb >= EPS2 * 0.999999:
+            return 'tolerance bounded below by %g >= EPSILON^2' % lb
+        return None
     if kind == 'index':
         idx = ex.get('index')
         base = ex.get('base')
@@ -309,7 +338,8 @@ TABLE = {
     (D + 'copy_surface::{closure#0}', 'len-match', 'copy_from_slice'): (1, 'else', 'equal row length (R15.2)'),
     (D + 'from_backing', 'panic', 'assert_failed'): (1, 'pre', 'data matches size'),
     (D + 'pop_layer', 'unwrap', 'pop'): (1, 'pre', 'pops match pushes'),
-    ('draw_target::Source::new_radial_gradient', 'unwrap', 'inverse'): (1, 'pre', 'radial radii are positive (scale(r,r) is invertible)'),
+    # (new_radial_gradient's `inverse().unwrap()` was audited as "radius positive => invertible"; that is wrong for f32:
+    #  the determinant r*r underflows to 0 for r < ~3.7e-23.  The entry was removed so that the census reports it; see D26.)
     (D + 'push_clip', 'index', 'blitter.buf'): (2, 'else', 'i < width*height (R05.2) <= buffer length width*height+1 (R01.5, R05.5)'),
     (D + 'push_clip', 'index', 'call:last.0.mask.0'): (1, 'else', 'previous masks are full-surface too (R05.5)'),
     ('geom::chop_quad_at', 'panic', 'panic'): (1, 'else', 'debug_assert!(0 < t < 1): called on the true edge of valid_unit_divide (R08.2)'),
